@@ -2,6 +2,7 @@ package concdrive
 
 import (
 	"fmt"
+	"strings"
 	"testing/synctest"
 	"time"
 
@@ -33,6 +34,8 @@ import (
 //	                       the retry ended (delivery or cancel instant)
 //	bystander-delayed      a third session's round trip during the retry had latency > 0
 //	dealer-tables-not-empty calls / invocations / invocationByCall not empty afterwards
+//	progressive-order      several progressive YIELDs while the caller did not read: the
+//	                       caller read them out of order, or one is missing before the final reply
 //	interrupt-after-answer the callee got an INTERRUPT although it had answered and
 //	                       the model delivers its RESULT (e.g. the call's timeout
 //	                       fired during the retry)
@@ -96,7 +99,7 @@ func retryPredict(dUs, DUs, tUs int64) (int64, string) {
 	return e, "out-of-fuel"
 }
 
-var yrKinds = []string{"final", "progressive-final", "stalled-progressive-final"}
+var yrKinds = []string{"final", "progressive-final", "stalled-progressive-final", "stalled-progressive-burst"}
 
 func genYieldResume(o *genOpts) []*History {
 	if o.prop != "C07" || o.skip[yrShape] {
@@ -250,7 +253,7 @@ func (r *runner) yieldResumeBody(sp *YieldResumeSpec, row *yrRow) {
 		opts["receive_progress"] = true
 	}
 	if sp.TimeoutMs > 0 {
-		if sp.Kind == "stalled-progressive-final" {
+		if strings.HasPrefix(sp.Kind, "stalled-progressive") {
 			setup("call_timeout_ms is for the kinds final and progressive-final (a call that was not answered finally may time out)")
 			return
 		}
@@ -290,7 +293,7 @@ func (r *runner) yieldResumeBody(sp *YieldResumeSpec, row *yrRow) {
 			yield(true, fmt.Sprintf("p%d", i))
 			synctest.Wait()
 			l := replies(0)
-			if len(l) != i+1 || l[i].typ != "RESULT" || l[i].inf != "progress" || l[i].t != ms(at) {
+			if len(l) != i+1 || l[i].typ != "RESULT" || !strings.HasPrefix(l[i].inf, "progress") || l[i].t != ms(at) {
 				bad("result-lost", "progressive RESULT %d to a draining caller not delivered at once: %v", i, l)
 				return
 			}
@@ -324,6 +327,12 @@ func (r *runner) yieldResumeBody(sp *YieldResumeSpec, row *yrRow) {
 	var first *outItem
 	if sp.Kind == "stalled-progressive-final" {
 		first = yield(true, "p-stalled")
+		yield(false, "final")
+	} else if sp.Kind == "stalled-progressive-burst" {
+		// the callee keeps yielding while the caller does not read
+		first = yield(true, "p-b0")
+		yield(true, "p-b1")
+		yield(true, "p-b2")
 		yield(false, "final")
 	} else {
 		first = yield(false, "final")
@@ -370,7 +379,7 @@ func (r *runner) yieldResumeBody(sp *YieldResumeSpec, row *yrRow) {
 		switch {
 		case x.typ == "ERROR":
 			errs = append(errs, x)
-		case x.inf == "progress":
+		case strings.HasPrefix(x.inf, "progress"):
 			progs = append(progs, x)
 		default:
 			finals = append(finals, x)
@@ -407,8 +416,9 @@ func (r *runner) yieldResumeBody(sp *YieldResumeSpec, row *yrRow) {
 	r.orc("yield-retry: call timeout %d ms (0: none); YIELD taken at %d ms; caller (q=%d) resumed %d us later; model: %v; observed for CALL %d: final RESULTs %v, progressive RESULTs %v, ERRORs %v; callee's next request taken %d us after the YIELD",
 		sp.TimeoutMs, ms(T0), sp.Q, sp.ResumeUs, allowed, callReq, finals, progs, errs, row.ReleasedUs)
 
-	stalledProg := sp.Kind == "stalled-progressive-final"
+	stalledProg := sp.Kind == "stalled-progressive-final" || sp.Kind == "stalled-progressive-burst"
 	wantProgs := 0
+	slack := int64(7000)
 	if stalledProg {
 		wantProgs = 1
 	}
@@ -418,6 +428,22 @@ func (r *runner) yieldResumeBody(sp *YieldResumeSpec, row *yrRow) {
 		subject = progs
 	} else {
 		subject = finals
+	}
+	if sp.Kind == "stalled-progressive-burst" {
+		// progressive results reach the caller in yield order, each once, before
+		// the final reply (every further one may need a retry of its own)
+		wantProgs, slack = 3, 30000
+		want := []string{"progress p-b0", "progress p-b1", "progress p-b2"}
+		orderOK := len(progs) <= 3
+		for i, x := range progs {
+			orderOK = orderOK && i < 3 && x.inf == want[i]
+		}
+		if len(progs) > 0 && (!orderOK || len(progs) != 3 && len(finals) > 0) {
+			bad("progressive-order", "the callee yielded p-b0, p-b1, p-b2, final; the caller read %v then %v", progs, finals)
+		}
+		if len(progs) > 1 {
+			subject = progs[:1]
+		}
 	}
 	switch {
 	case len(subject) > 1 || len(finals) > 1 || len(finals)+len(errs) > 1:
@@ -434,9 +460,9 @@ func (r *runner) yieldResumeBody(sp *YieldResumeSpec, row *yrRow) {
 			bad("unexpected-error", "RESULT delivered and also %v", errs)
 		case stalledProg && len(finals) == 0:
 			bad("result-lost", "the progressive RESULT arrived at %d us but the final RESULT of the YIELD queued behind it never did", row.ObservedUs)
-		case stalledProg && (finals[0].t < subject[0].t || rel(finals[0].t) > row.ObservedUs+7000):
+		case stalledProg && (finals[0].t < subject[0].t || rel(finals[0].t) > row.ObservedUs+slack):
 			bad("result-wrong-instant", "final RESULT at %d us, progressive one at %d us", rel(finals[0].t), row.ObservedUs)
-		case len(progs) != wantProgs:
+		case len(progs) != wantProgs && !r.hasFail("yield-retry"):
 			bad("result-duplicated", "progressive RESULTs after the YIELD: %v", progs)
 		}
 	default:
@@ -494,7 +520,7 @@ func (r *runner) yieldResumeBody(sp *YieldResumeSpec, row *yrRow) {
 			bad("callee-release-instant", "the callee's next request was never taken (retry should have ended at %d us)", end)
 		case !stalledProg && row.ReleasedUs != end:
 			bad("callee-release-instant", "the callee's next request was taken %d us after the YIELD; the retry ended at %d us", row.ReleasedUs, end)
-		case stalledProg && (row.ReleasedUs < end || row.ReleasedUs > end+7000):
+		case stalledProg && (row.ReleasedUs < end || row.ReleasedUs > end+slack):
 			bad("callee-release-instant", "the callee's next request was taken %d us after the YIELD; the first retry ended at %d us", row.ReleasedUs, end)
 		}
 		if m, ok := has(callee, calleeMark, "ERROR", probeReq); pst == itAccepted && (!ok || m.T != ms(pacc)) {
